@@ -85,6 +85,8 @@ def cases(seed, tier):
             for a in rs["actions"]:
                 scripts[a["args"]["id"] + "@" + u] = [rng.choice("CSA") for _ in range(nticks)]
         cid = "C11-%d-%d" % (seed, i)
+        if i % 4 == 2:
+            c02.dropin_noise(rng, rulesets, ticks, p=0.4)
         scn = c02.mk_scn(cid, {"rulesets": rulesets}, scripts, ticks, {"cgroups": cg})
         yield core.Case(cid, [scn], {"pattern": pat, "xattr": use_x, "ticks": nticks})
 
@@ -115,6 +117,9 @@ def judge(case, results):
         return v
     live, ws = live_sets(scn)
     viol, st = engine.check(scn["config"], res.events, live=live, nticks=len(scn["ticks"]))
+    st["dropin_requests"] = sum(1 for e in res.events if e.get("ev") == "dropin")
+    st["dropin_adds_applied"] = sum(1 for e in res.events if e.get("ev") == "dropin_result" and e["op"] == "add" and e["ok"])
+    st["dropin_adds_rolled_back"] = sum(1 for e in res.events if e.get("ev") == "dropin_result" and e["op"] == "add" and not e["ok"])
     # a cgroup removed and re-created between two ticks is, for the property ("absent for at least one tick"),
     # allowed to keep or lose its state: the oracle keys instances by path, so only flag instance changes
     for prop, rule, disc, detail in viol:
